@@ -18,7 +18,7 @@ import threading
 import time
 
 
-def run(items, fn, nthreads=4, chunk=40, switch=1e-6, join_timeout=300):
+def run(items, fn, nthreads=4, chunk=40, switch=1e-6, join_timeout=300, tick=None):
     """every thread calls fn(item) for every item; -> (history, stats)
     history: list of (thread, index, 'ok'|'exc', value); stats: dict(executions, overlapped_items, threads)"""
     n = len(items)
@@ -52,8 +52,16 @@ def run(items, fn, nthreads=4, chunk=40, switch=1e-6, join_timeout=300):
     try:
         for th in ths:
             th.start()
-        for th in ths:
-            th.join(join_timeout)
+        # the caller's per-step CPU watchdog counts the CPU time of all threads: `tick` (Monitor.progress) re-arms it while the
+        # workers make progress (the number of recorded outcomes grows); a phase that stops advancing is left to trip it
+        deadline = time.monotonic() + join_timeout
+        seen = -1
+        while any(th.is_alive() for th in ths) and time.monotonic() < deadline:
+            ths[0].join(0.25)
+            done = sum(len(o) for o in out)
+            if tick is not None and done != seen:
+                tick()
+            seen = done
     finally:
         sys.setswitchinterval(old)
     alive = sum(th.is_alive() for th in ths)
@@ -73,16 +81,20 @@ def differential(M, items, one, sig, nthreads=6, chunk=40, monitor="concurrent",
     the same exception type.  Returns the stats of run()."""
     M.quiet += 1
     try:
-        hist, st = run(items, one, nthreads=nthreads, chunk=chunk)
+        hist, st = run(items, one, nthreads=nthreads, chunk=chunk, tick=M.progress)
     finally:
         M.quiet -= 1
     ref = []
-    for it in items:
+    for n_, it in enumerate(items):
+        if n_ % 64 == 0:
+            M.progress()
         try:
             ref.append(("ok", one(it)))
         except Exception as e:  # noqa: BLE001
             ref.append(("exc", type(e).__name__))
-    for t, i, kind, v in hist:
+    for n_, (t, i, kind, v) in enumerate(hist):
+        if n_ % 256 == 0:
+            M.progress()
         r = ref[i]
         if kind == "exc":
             ok = r == ("exc", type(v).__name__)
